@@ -13,6 +13,7 @@ g <smart 0|1> <start> <tok> <syn> <kw> <skip> <prods>     -> ok amb=<0|1> | err 
       prods = - | SYM=alt|alt…;SYM=…   alt = ~ (empty) | s.s.s      (`SYM=` : no alternatives)
 p <textcps> <raw>                                         -> tree <sexp> | err <Class> | nogrammar
       raw   = - | GROUP~valuecps;…   (the lexemes found by `re`, before naming and skipping)
+amb                                                       -> amb=<0|1>   (is_ambiguous() again, after the parses)
 prods | suffix | table | nullables | first | follow       -> diagnostics (not part of the verdict)
 reset                                                     -> ok
 ```
@@ -139,6 +140,7 @@ def handle (st : Option Parser) (line : String) : Option Parser × String :=
     | none => (st, "nogrammar")
     | some P =>
       (st, match op with
+        | "amb" => "amb=" ++ (if isAmbiguous P.table then "1" else "0")
         | "prods" => showProds P.prods
         | "suffix" => showSet P.suffix
         | "table" => showTable P.table
